@@ -25,7 +25,8 @@ EXTENDS Integers, Sequences, FiniteSets, TLC, Json
 
 CONSTANTS Fields,   \* subset of DOMAIN FieldTab: the header fields a history may use
           Sizes,    \* values SETTINGS_HEADER_TABLE_SIZE may take
-          MaxOps,   \* length bound of a history
+          MaxOps,   \* bound on the field / end-of-block operations of a history
+          MaxSets,  \* bound on its SETTINGS changes (at most two between two blocks: "reduce, then grow")
           Defects
 
 (* ---------------- data ---------------- *)
@@ -126,7 +127,10 @@ Init == /\ encTab = <<>> /\ encMax = 4096 /\ encMin = Inf /\ encUpd = FALSE
         /\ decTab = <<>> /\ decMax = 4096 /\ decAllowed = 4096
         /\ pend = Inf /\ wire = <<>> /\ inb = <<>> /\ out = <<>> /\ status = "idle" /\ hist = <<>>
 
-Open == status \in {"idle", "done"} /\ Len(hist) < MaxOps
+NOps(h)  == Len(SelectSeq(h, LAMBDA o : o.k # "s"))
+NSets(h) == Len(SelectSeq(h, LAMBDA o : o.k = "s"))
+TwoSets(h) == Len(h) >= 2 /\ h[Len(h)].k = "s" /\ h[Len(h) - 1].k = "s"
+Open == status \in {"idle", "done"} /\ NOps(hist) < MaxOps
 \* the previous block stays visible (ghost) until the next operation starts a new one
 CurWire == IF status = "done" THEN <<>> ELSE wire
 CurIn   == IF status = "done" THEN <<>> ELSE inb
@@ -134,6 +138,7 @@ CurIn   == IF status = "done" THEN <<>> ELSE inb
 (* the decoder's side announces SETTINGS_HEADER_TABLE_SIZE = v between two blocks; the encoder's side applies it *)
 Setting(v) ==
   /\ Open /\ CurIn = <<>>
+  /\ NSets(hist) < MaxSets /\ ~TwoSets(hist) /\ NOps(hist) + 2 <= MaxOps     \* a block can still follow
   /\ decAllowed' = v /\ pend' = Min(pend, v)
   /\ IF "IgnoreSetting" \in Defects THEN UNCHANGED <<encTab, encMax, encMin, encUpd>>
      ELSE /\ encMax' = Min(v, 4096)
@@ -145,7 +150,7 @@ Setting(v) ==
   /\ UNCHANGED <<decTab, decMax>>
 
 Field(k) ==
-  /\ Open /\ Len(hist) + 1 < MaxOps            \* room for the EndBlock
+  /\ Open /\ NOps(hist) + 1 < MaxOps           \* room for the EndBlock
   /\ LET f    == FieldTab[k]
          pre  == IF encUpd THEN (IF encMin < encMax THEN <<Rep("upd", encMin, "", "")>> ELSE <<>>)
                                 \o <<Rep("upd", encMax, "", "")>>
@@ -196,5 +201,5 @@ CaseOps == [i \in DOMAIN hist |->
               IF hist[i].k = "f"
               THEN [k |-> "f", a |-> hist[i].a, n |-> FieldTab[hist[i].a].n, v |-> FieldTab[hist[i].a].v, s |-> FieldTab[hist[i].a].s]
               ELSE [k |-> hist[i].k, a |-> hist[i].a, n |-> "", v |-> "", s |-> FALSE]]
-EmitCase == (status \in {"done", "error"} /\ Len(hist) >= MaxOps - 1) => PrintT(<<"CASE", ToJson([ops |-> CaseOps])>>)
+EmitCase == (status \in {"done", "error"} /\ NOps(hist) >= MaxOps - 1) => PrintT(<<"CASE", ToJson([ops |-> CaseOps])>>)
 ====
